@@ -432,3 +432,44 @@ ASSUMPTIONS = [
     "asyncio is trusted behind the contract stubs: a cancelled task/future does not continue, asyncio.timeout cancels what it guards, locks are mutually exclusive, queues are FIFO, tasks switch only at awaits; interleavings inside one await are represented by 'the awaited object completes with any admissible value, times out, or the connection closes'",
     "CEMIMPropReadResponse always carries at least one data octet (parser invariant)",
 ]
+
+
+# ------------------------------------------------------------------ construction: every connection class
+# The lemmas above take a connection in any reachable state (conn_spec); what the constructors of the three
+# public classes make of their arguments is checked here on the real constructors.
+
+from xknx.io.device_management_connection import SecureDeviceManagementConnection  # noqa: E402
+
+
+def _no_transport(self):
+    """_init_transport by contract: the transport object is not part of this property (C22/C29)."""
+    self.transport = RecTransport()
+
+
+def _from_knx_ok(raw):
+    return ghost("parsed")[-1]
+
+
+CTOR_STUBS = [(asyncio, "Lock", Lock)] + [(k, "_init_transport", _no_transport) for k in (UDPDeviceManagementConnection, TCPDeviceManagementConnection, SecureDeviceManagementConnection)]
+
+
+@lemma("C32", family=[dict(kind=k) for k in ("udp", "tcp", "secure")], params=dict(cb=Choice(None, Obj(IndicationCb, raises=Bool())), frame=ANSWER, raw=Bytes(max_len=12)), stubs=CTOR_STUBS + [(CEMIFrame, "from_knx", _from_knx_ok)])
+def every_connection_class_starts_idle_with_the_given_indication_callback(kind, cb, frame, raw):
+    """UDP, TCP and secure connections as their constructors build them: no request pending, counter 0, no
+    channel - and the indication callback is the one handed in, so the first M_PropInfo.ind a new connection
+    receives reaches it (and only it)."""
+    if kind == "udp":
+        c = UDPDeviceManagementConnection("10.0.0.1", 3671, "10.0.0.2", indication_callback=cb)
+    elif kind == "tcp":
+        c = TCPDeviceManagementConnection("10.0.0.1", 3671, indication_callback=cb)
+    else:
+        c = SecureDeviceManagementConnection("10.0.0.1", 3671, user_id=2, user_password="secret", indication_callback=cb)
+    assert c.indication_callback is cb
+    assert c._pending is None and c.sequence_number == 0 and c.communication_channel is None
+    ghost("parsed").append(frame)
+    c._cemi_received(raw)
+    if cb is not None and frame.code is CEMIMessageCode.M_PROP_INFO_IND:
+        assert ghost("indications") == [frame]
+    else:
+        assert ghost("indications") == []
+    assert c._pending is None
